@@ -32,7 +32,10 @@ CONF = dict(
           'offset), *.servers (two servers with interleaved mode on: the caller passes now one now the other remote address, also in IPv4-mapped form; with NTS the key '
           'exchange delivers one cookie and names now one now the other address - not the configured one -, responses carry no new cookie so that every exchange re-keys; '
           'the response of the address that is not queried is injected), ip6.hist (IP client and peer on ::1), datagrams around the size of the SCION client\'s receive '
-          'buffer (9187..10000 bytes: MSG_TRUNC), client.badlocal (local address that is no IP address: an error, nothing sent). Observed: the error of every exchange (call logger), the four timestamps combined (recording filter), the offset and error '
+          'buffer (9187..10000 bytes: MSG_TRUNC), client.badlocal (local address that is no IP address: an error, nothing sent), client.ctxdone (context already cancelled, deadline in the past, deadline passing '
+          'between the tries of an interleaved-mode call: a measurement is reported only if a datagram was accepted), keyless NTS forgeries (identifier copied from the request, '
+          'authenticator with nonce 16 and ciphertext length 0 - padded, followed by another field, or too short to be parsed -, ciphertext of 1..15 bytes, nonce length 0, a '
+          'field that is only its header, a made-up 16-byte tag). Observed: the error of every exchange (call logger), the four timestamps combined (recording filter), the offset and error '
           'returned, the timestamp fields of every request on the wire. A history is non-trivial when at least one delivered datagram differs from a genuine response; '
           'distinct = distinct (kind, input)'),
     assumptions=['symbolic AEAD for the NTS clause (C05_nts_authentic: a ciphertext opens only if the key holder sealed it with exactly that associated data)',
@@ -66,5 +69,5 @@ CONF = dict(
                  'request quotes: a timestamp of a skipped or rejected datagram must not enter a measurement); a returned offset is that of an accepted exchange; a cookie in the pool '
                  'after a call comes from the pool before it, a key exchange, or a datagram that passed all of these'),
     timeout_quick=900, timeout_thorough=3000,
-    min_cases={'client.badlocal': 1, 'ip.hist': 480, 'ip.late': 12, 'ip.nofilter': 28, 'ip.servers': 64, 'ip6.hist': 12, 'scion.addrtype': 28, 'scion.allfail': 1, 'scion.allfailauth': 1, 'scion.auth': 160, 'scion.hist': 160, 'scion.late': 8, 'scion.lateauth': 3, 'scion.nofilter': 28, 'scion.nts': 38, 'scion.ntsauth': 40, 'scion.servers': 64},
+    min_cases={'client.badlocal': 1, 'client.ctxdone': 3, 'ip.hist': 480, 'ip.late': 12, 'ip.nofilter': 28, 'ip.servers': 64, 'ip6.hist': 12, 'scion.addrtype': 28, 'scion.allfail': 1, 'scion.allfailauth': 1, 'scion.auth': 160, 'scion.hist': 160, 'scion.late': 8, 'scion.lateauth': 3, 'scion.nofilter': 28, 'scion.nts': 38, 'scion.ntsauth': 40, 'scion.servers': 64},
 )
